@@ -28,7 +28,7 @@ package gozxing
 //@ func NewEmptyBitArray() (r *BitArray)
 //@   property C16
 //@   mode bv
-//@   ensures r != nil && fresh(r) && wfBA(r) && r.size == 0 && len(r.bits) == 1
+//@   ensures r != nil && fresh(r) && wfBA(r) && r.size == 0 && len(r.bits) == 1 && fresh(r.bits)
 //@   ensures forall k int :: 0 <= k && k < capBA(r) ==> !bit(r, k)
 //@   modifies nothing
 
@@ -172,6 +172,7 @@ package gozxing
 //@   ensures bad ==> e != nil && b.size == old(b.size)
 //@   ensures bad ==> forall k int :: 0 <= k && k < b.size ==> bit(b, k) == old(bit(b, k))
 //@   ensures !bad ==> e == nil && wfBA(b) && padBA(b) && b.size == old(b.size) + numBits
+//@   ensures b.bits == old(b.bits) || fresh(b.bits)
 //@   ensures !bad ==> forall k int :: 0 <= k && k < old(b.size) ==> bit(b, k) == old(bit(b, k))
 //@   ensures !bad ==> forall j int :: 0 <= j && j < numBits ==> bit(b, old(b.size) + j) == ((value >> uint(numBits-1-j)) & 1 == 1)
 //@   modifies b.bits, b.bits[*], b.size
